@@ -1,7 +1,5 @@
-(* C14L -- AssertCombinerPass: the value-level fact behind a merge step, for all 256-bit words, and its consequence for
-   the instruction sequences of the model (AssertComb.merged_tail).  PARTIAL: the step-level bisimulation
-   (ac_pass preserves Sem.beh_equiv) is not proved here; the pass is covered by the exact tie of ac_pass to the real
-   pass plus the search (see notes/C14-smallpasses.md). *)
+(* C14L -- AssertCombinerPass: the value-level facts behind a merge step, for all 256-bit words.
+   The pass-level theorem `ac_pass_correct` is in AcStep.v (via SegRepl.v). *)
 From Coq Require Import ZArith NArith Bool List String Lia.
 From Verif Require Import Base.Word256 Base.PyInt C14.RangeBase C14.RangeFix C14.RangeFixProofs C14.WordClosed
   C14L.Sem C14L.SemProofs C14L.Pointwise C14L.Steps C14L.AssertComb.
